@@ -47,7 +47,7 @@ MAX_REPORTED_PER_SIGNATURE = 2
 def ring_index(ctx, n):
     """Placement.tla instances -> {replica-list length: [(instance, key position)]} using the real get_replicas;
     instances on which the real replica list is not the specified set (C26's concern) are left out."""
-    consts = {"MaxHosts": n, "MaxDCs": 2, "MaxRacks": 2, "MaxRing": 4, "MaxRF": 3, "Lens": {1, 2, 3, 4}, "MaxAlters": 0}
+    consts = {"MaxHosts": n, "MaxDCs": 2, "MaxRacks": 2, "MaxRing": 4, "MaxRF": 3, "Lens": {1, 2, 3, 4}, "MaxAlters": 0, "MaxMoves": 0, "MaxOps": 0}
     cfg = tlc.write_cfg(os.path.join(ctx.scratch, "PlacementRings.cfg"), constants=consts,
                         invariants=["TypeOK", "SimpleCount", "NTSCountPerDc", "LookupOK"], deadlock=False)
     res, states = tlc.enumerate_states("Placement", cfg, ctx.scratch, timeout=900)
@@ -191,8 +191,8 @@ def alter_plans(inst, shuffle, down):
 
 def alter_domain(ctx, by_sig):
     """AlterReplication between plans: TLC-enumerated rings x settings histories, bound on the real objects."""
-    consts = ({"MaxHosts": 3, "MaxDCs": 2, "MaxRacks": 2, "MaxRing": 3, "MaxRF": 2, "Lens": {2, 3}, "MaxAlters": 1} if ctx.quick else
-              {"MaxHosts": 3, "MaxDCs": 2, "MaxRacks": 2, "MaxRing": 4, "MaxRF": 2, "Lens": {2, 3, 4}, "MaxAlters": 1})
+    consts = ({"MaxHosts": 3, "MaxDCs": 2, "MaxRacks": 2, "MaxRing": 3, "MaxRF": 2, "Lens": {2, 3}, "MaxAlters": 1, "MaxMoves": 0, "MaxOps": 1} if ctx.quick else
+              {"MaxHosts": 3, "MaxDCs": 2, "MaxRacks": 2, "MaxRing": 4, "MaxRF": 2, "Lens": {2, 3, 4}, "MaxAlters": 1, "MaxMoves": 0, "MaxOps": 1})
     cfg = tlc.write_cfg(os.path.join(ctx.scratch, "PlacementAlter.cfg"), constants=consts, invariants=ALTER_INVARIANTS, deadlock=False)
     res, states = tlc.enumerate_states("Placement", cfg, ctx.scratch, coverage=True, timeout=900)
     ctx.add_tlc(res, "placement-alter-histories")
